@@ -2,6 +2,7 @@ import Compass.Drv.C09
 import Compass.Drv.Search
 import Compass.Drv.C15
 import Compass.Drv.C07
+import Compass.Drv.C11
 
 /-- `driver <prop>`: reads one case per line on stdin, prints the model's canonical output line -/
 partial def loop (h : IO.FS.Stream) (out : IO.FS.Stream) (f : String → String) : IO Unit := do
@@ -24,6 +25,7 @@ def dispatch : String → Option (String → String)
   | "C10" => some Compass.Drv.Search.run
   | "C15" => some Compass.Drv.C15.run
   | "C07" => some Compass.Drv.C07.run
+  | "C11" => some Compass.Drv.C11.run
   | _ => none
 
 def main (args : List String) : IO UInt32 := do
